@@ -71,6 +71,25 @@ def check(rep, tier, seed):
                 if elements(sh2) != elements(sh):
                     tcases.append("read %s" % text_spectrum(sh2, vals).hex()); tlabels.append(("shape entry %d %+d" % (j, delta), False))
         tcases.append("read %s" % text_spectrum(sh + [2], vals).hex()); tlabels.append(("extra axis", False))
+        # the same edits with the value tokens laid out over several lines, tabs, CRLF, no final newline: the count of
+        # tokens is taken over the whole remainder of the file, wherever the tokens stand
+        def layout(shape, toks, seps, final):
+            body = "".join(t + (seps[k % len(seps)] if k + 1 < len(toks) else "") for k, t in enumerate(toks))
+            return ("#SHAPE=<%s>\n%s%s" % ("/".join(map(str, shape)), body, final)).encode()
+        row = sh[-1]
+        layouts = [("one token per line", ["\n"], "\n"), ("rows", [" "] * (row - 1) + ["\n"], "\n"), ("tabs and crlf", ["\t", "\r\n", "  "], "\r\n"),
+                   ("no final newline", [" "], ""), ("blank lines", ["\n\n", " "], "\n\n")]
+        for lname, seps, final in layouts:
+            tcases.append("read %s" % layout(sh, vals, seps, final).hex()); tlabels.append(("valid, " + lname, True))
+            tcases.append("read %s" % layout(sh, vals[:-1], seps, final).hex()); tlabels.append(("remove last token, " + lname, False))
+            tcases.append("read %s" % layout(sh, vals + ["1"], seps, final).hex()); tlabels.append(("append token, " + lname, False))
+            i = rng.randrange(len(vals))
+            tcases.append("read %s" % layout(sh, vals[:i] + vals[i + 1:], seps, final).hex()); tlabels.append(("remove token %d, %s" % (i, lname), False))
+        # a complete first line of values followed by surplus tokens on later lines (and a short first line completed later)
+        tcases.append("read %s" % (good + b"4\n").hex()); tlabels.append(("surplus token on a second line", False))
+        tcases.append("read %s" % (good + " ".join(vals).encode() + b"\n").hex()); tlabels.append(("values line written twice", False))
+        tcases.append("read %s" % (good + b"\n\n").hex()); tlabels.append(("valid, trailing blank lines", True))
+        tcases.append("read %s" % (text_spectrum(sh, vals[:-1]) + vals[-1].encode() + b"\n").hex()); tlabels.append(("valid, last token on a second line", True))
     mo_t, outs_t = compare_cases(rep, "text-damage", tcases, nontrivial=lambda c, m: True, classify=lambda c, m, i: "damage:text-model-vs-impl", spec=True)
     uniq_t = list(dict.fromkeys(tcases)); pos_t = {c: k for k, c in enumerate(uniq_t)}
     for c, (what, valid) in zip(tcases, tlabels):
